@@ -1,5 +1,6 @@
 import TinsModel.RadioTap.LemmasDecode
 import TinsModel.RadioTap.LemmasLive
+import TinsModel.RadioTap.LemmasLast
 import TinsModel.RadioTap.LemmasSafeObs
 import TinsModel.RadioTap.LemmasReport
 /- Property C11 — RadioTap fields can be set in any order and read back.
@@ -465,6 +466,94 @@ theorem setter_frame_live (F : Frame) (m : FMap) (f : Nat) (v : Bytes) (hF : F.o
   · intro g w hg hgw
     exact getter_present_layout _ (Frame.ok_tail hF T') _ hm' g w (by simp [upd, hg, hgw])
 
+/-! ### headers whose last present word carries well-aligned table fields
+
+  `decodeLayout2 stdMeta buf = some (F, fs0, fsK, rest)`: `buf` is well aligned, its first present word has table
+  fields `fs0` (at least one), and the bytes behind them are the fields `fsK` the last present word announces, zero
+  padded at their aligned offsets, followed by `rest` (`decodeLayout2_sound`).  With two present words and bit 29 in
+  the first this is a header with two radiotap namespaces as the standard lays it out (e.g. the capture in libtins'
+  own test suite). -/
+
+/-- **write_two_words** — one valid write on such a header: the first word's fields follow the updated map, the last
+    word's fields keep their values at re-aligned offsets, the chain and the bytes behind are untouched. -/
+theorem write_two_words (F : Frame) (hF : F.ok stdMeta) (m0 : FMap) (hm : sized stdMeta m0) (hne : fieldList stdMeta m0 ≠ [])
+    (fsK : List (Nat × Bytes)) (rest : Bytes) (hL : LastWord stdMeta F fsK) (f : Nat) (v : Bytes) (hw : validWrite stdMeta (f, v)) :
+    writeOption genMeta (lay2 stdMeta F (fieldList stdMeta m0) fsK rest) f v
+      = .ok (lay2 stdMeta F (fieldList stdMeta (upd m0 f v)) fsK rest) := by
+  rw [gen_meta_eq_std]
+  exact writeOption_lay2 std_wf std_lowAlign hF hm hne fsK rest hL f v hw
+
+/-- **getter_two_words** — every getter on such a header returns the first word's value, else the last word's, else
+    `field_not_present`. -/
+theorem getter_two_words (F : Frame) (hF : F.ok stdMeta) (m0 mK : FMap) (hm0 : sized stdMeta m0) (hmK : sized stdMeta mK)
+    (hne : fieldList stdMeta m0 ≠ []) (rest : Bytes) (hL : LastWord stdMeta F (fieldList stdMeta mK)) (g : Nat) :
+    doFindOption genMeta (lay2 stdMeta F (fieldList stdMeta m0) (fieldList stdMeta mK) rest) g =
+      match m0 g with
+      | some v => .ok v
+      | none => match mK g with
+        | some v => .ok v
+        | none => .throw .fieldNotPresent := by
+  rw [gen_meta_eq_std]
+  exact doFindOption_lay2 std_wf hF hm0 hmK hne rest hL g
+
+/-- **setters_two_words** — histories from a parsed header the decidable test `decodeLayout2` accepts: after any finite
+    sequence of valid writes the payload is the two-word layout of the last-write map over the first word's fields
+    with the last word's fields and the rest unchanged; every field reads back as last written, untouched fields of
+    both words keep their values. -/
+theorem setters_two_words (buf : Bytes) (F : Frame) (fs0 fsK : List (Nat × Bytes)) (rest : Bytes)
+    (hdec : decodeLayout2 stdMeta buf = some (F, fs0, fsK, rest)) (ver pad : Nat) (ws : List (Nat × Bytes))
+    (h : ∀ w ∈ ws, validWrite stdMeta w) :
+    applyWrites genMeta ws { version := ver, pad := pad, payload := buf }
+      = .ok { version := ver, pad := pad,
+              payload := lay2 stdMeta F (fieldList stdMeta (lastWrite (mapOfList fs0) ws)) fsK rest } ∧
+    ∀ g, doFindOption genMeta (lay2 stdMeta F (fieldList stdMeta (lastWrite (mapOfList fs0) ws)) fsK rest) g =
+      match lastWrite (mapOfList fs0) ws g with
+      | some v => .ok v
+      | none => match mapOfList fsK g with
+        | some v => .ok v
+        | none => .throw .fieldNotPresent := by
+  obtain ⟨hF, hm0, hfl0, hne0, hmK, hflK, hL, hbuf⟩ := decodeLayout2_sound stdMeta buf F fs0 fsK rest hdec
+  have hne0' : fieldList stdMeta (mapOfList fs0) ≠ [] := by rw [hfl0]; exact hne0
+  constructor
+  · rw [hbuf, gen_meta_eq_std]
+    have := applyWrites_lay2 std_wf std_lowAlign hF fsK rest hL ws (mapOfList fs0) ver pad hm0 hne0' h
+    rw [hfl0] at this
+    exact this
+  · intro g
+    have hms := sized_lastWrite ws hm0 h
+    have hne' : fieldList stdMeta (lastWrite (mapOfList fs0) ws) ≠ [] := by
+      -- a write never removes a field: the domain only grows
+      intro hnil
+      have hdom : ∀ c, c < stdMeta.max → (lastWrite (mapOfList fs0) ws c).isSome = false := by
+        intro c hc
+        have := testBit_present_map stdMeta (lastWrite (mapOfList fs0) ws) c hc
+        rw [hnil] at this
+        simpa [presentWord] using this.symm
+      have hgrow : ∀ (ws : List (Nat × Bytes)) (m : FMap) (c : Nat), (m c).isSome = true → (lastWrite m ws c).isSome = true := by
+        intro ws
+        induction ws with
+        | nil => intro m c hc; exact hc
+        | cons w r ih =>
+          intro m c hc
+          simp only [lastWrite, List.foldl_cons]
+          apply ih
+          unfold upd
+          split
+          · rfl
+          · exact hc
+      cases hfs : fs0 with
+      | nil => exact hne0 hfs
+      | cons x r =>
+        have hx : x ∈ fieldList stdMeta (mapOfList fs0) := by rw [hfl0, hfs]; exact List.mem_cons_self ..
+        have hmem := fieldsFrom_mem hx
+        have h1 := hgrow ws (mapOfList fs0) x.1 (by rw [hmem.2.2]; rfl)
+        have hlt : x.1 < stdMeta.max := (hm0 x.1 x.2 hmem.2.2).1
+        rw [hdom x.1 hlt] at h1
+        cases h1
+    have := getter_two_words F hF (lastWrite (mapOfList fs0) ws) (mapOfList fsK) hms hmK hne' rest (by rw [hflK]; exact hL) g
+    rw [hflK] at this
+    exact this
+
 /-! ### present(), trailer_size() -/
 
 /-- **present = domain** — `present()` is the OR of the flags of exactly the written fields. -/
@@ -646,6 +735,13 @@ def exampleM : FMap := fun c => if c = 0 then some [1, 2, 3, 4, 5, 6, 7, 8] else
 example : exampleF.ok stdMeta ∧ exampleF.inert stdMeta := by decide
 
 example : decodeLayout stdMeta (layL stdMeta exampleF (fieldList stdMeta exampleM)) = some (exampleF, fieldList stdMeta exampleM) := by
+  decide
+
+/-- the two-namespace capture of libtins' own test suite (`expected_packet4`: TSFT, FLAGS, CHANNEL, DBM_SIGNAL,
+    RX_FLAGS, MCS in the first word, DBM_SIGNAL and ANTENNA in the second) is accepted by `decodeLayout2` -/
+example : (decodeLayout2 stdMeta [0x2b, 0x40, 0x08, 0xa0, 0x20, 0x08, 0, 0, 0, 0, 0, 0, 0xde, 0x18, 0x7a, 0x5c, 0xe3, 1, 0, 0, 0x10, 0,
+    0x6c, 0x09, 0x80, 0x04, 0xba, 0, 0, 0, 0x27, 0, 1, 0xba, 0]).map (fun r => (r.2.1.map (·.1), r.2.2.1.map (·.1), r.2.2.2))
+    = some ([0, 1, 3, 5, 14, 19], [5, 11], []) := by
   decide
 
 /-- the refutation witness is a well-aligned header the decidable test accepts, with a live frame -/
